@@ -192,6 +192,7 @@ class _Reader:
         self.d = data
         self.n = len(data)
         self.pos = 0
+        self.max_name = MAX_NAME
 
     def need(self, k: int) -> None:
         if self.pos + k > self.n:
@@ -256,17 +257,20 @@ class _Reader:
                 raise Reject("label runs off the datagram")
             labels.append(self.d[pos + 1:pos + 1 + l])
             total += l + 1
-            if len(labels) > MAX_LABELS or total > MAX_NAME:
+            if len(labels) > MAX_LABELS or total > self.max_name:
                 raise Reject("name too long")
             pos += 1 + l
         self.pos = end if end is not None else pos
-        if len(text(labels)) > MAX_NAME or sum(len(x) + 1 for x in labels) > MAX_NAME:
+        if len(text(labels)) > self.max_name or sum(len(x) + 1 for x in labels) > self.max_name:
             raise Reject("name too long")
         return labels
 
 
-def strict_decode(data: bytes) -> Message:
+def strict_decode(data: bytes, max_name: int = MAX_NAME) -> Message:
+    """max_name is only raised by a caller that has already established that the datagram is rejected for a name beyond
+    the RFC 1035 limit and wants to compare the rest of it."""
     r = _Reader(data)
+    r.max_name = max_name
     m = Message()
     if len(data) < 12:
         raise Reject("short header")
